@@ -268,6 +268,9 @@ pub struct Run {
     /// (0 = none): a case that does not return within it is reported as a violation
     pub case_budget: std::sync::atomic::AtomicU64,
     pub evidence_path: Mutex<String>,
+    /// cases the harness could not run (its own environment failed: kind "harness"), and the first reason
+    pub harness_skipped: std::sync::atomic::AtomicU64,
+    pub harness_note: Mutex<Option<String>>,
 }
 
 impl Run {
@@ -293,6 +296,8 @@ impl Run {
             findings: known::load(prop),
             case_budget: std::sync::atomic::AtomicU64::new(0),
             evidence_path: Mutex::new(String::new()),
+            harness_skipped: std::sync::atomic::AtomicU64::new(0),
+            harness_note: Mutex::new(None),
         }
     }
 
@@ -506,6 +511,18 @@ impl Run {
                                     } else if shard == 0 && l.evaluations == 1 {
                                         l.fallback_sample =
                                             Some(serde_json::to_value(&v).unwrap_or(Value::Null));
+                                    }
+                                }
+                                Ok(())
+                            }
+                            Err(f) if f.kind == "harness" => {
+                                // the rig itself could not be set up or driven (sockets, runtime): the
+                                // case says nothing about the code under test
+                                if !failed.get() {
+                                    self.harness_skipped.fetch_add(1, Ordering::Relaxed);
+                                    let mut n = self.harness_note.lock().unwrap();
+                                    if n.is_none() {
+                                        *n = Some(format!("{sub}: {}", f.msg));
                                     }
                                 }
                                 Ok(())
@@ -790,6 +807,10 @@ impl Run {
         );
         for (k, v) in self.extra.lock().unwrap().iter() {
             coverage.insert(k.clone(), v.clone());
+        }
+        coverage.insert("harness_skipped".into(), json!(self.harness_skipped.load(Ordering::Relaxed)));
+        if let Some(n) = self.harness_note.lock().unwrap().as_ref() {
+            coverage.insert("harness_note".into(), json!(n));
         }
         let doc = json!({
             "property_id": self.prop,
